@@ -14,6 +14,7 @@
  * limitations under the License.
  */
 
+#include <unifex/detail/verif_hooks.hpp>
 #include <unifex/v2/async_mutex.hpp>
 
 namespace unifex::v2 {
@@ -27,17 +28,21 @@ void async_mutex::process_queue() noexcept {
     }
 
     // Queue empty — release the lock.
+    UNIFEX_VERIF_POINT(291);
     locked_.store(false, std::memory_order_release);
+    UNIFEX_VERIF_POINT(292);
 
     // Dekker fence: orders the release before the re-check.
     std::atomic_thread_fence(std::memory_order_seq_cst);
 
+    UNIFEX_VERIF_POINT(293);
     if (queue_.empty()) {
       return;
     }
 
     // Item appeared after release.  Re-acquire; if another
     // thread beat us, they will drain.
+    UNIFEX_VERIF_POINT(294);
     if (locked_.exchange(true, std::memory_order_acq_rel)) {
       return;
     }
